@@ -7,6 +7,7 @@ and sharing no node.
 """
 import itertools
 
+import common
 from common import from_obj, lang, lean_batch, proof_coverage, rng_for, sexpr, to_obj, tree_str
 from gen import formulas as F
 from theorems import get
@@ -96,12 +97,12 @@ def pickle_stream(res):
         d = subprocess.run([sys.executable, '-c', cmd % 'dump'], stdout=subprocess.PIPE, stderr=subprocess.PIPE, text=True,
                            env=dict(env, PYTHONHASHSEED=s1))
         if d.returncode != 0:
-            res.violation('formulas cannot be pickled: ' + d.stderr[-300:], {'history': 'pickle.dumps(list of formulas)'})
+            common.helper_crash(res, 'formulas cannot be pickled', d.stderr, {'history': 'pickle.dumps(list of formulas)'})
             return 0
         l = subprocess.run([sys.executable, '-c', cmd % 'load'], input=d.stdout.strip().splitlines()[-1], stdout=subprocess.PIPE,
                            stderr=subprocess.PIPE, text=True, env=dict(env, PYTHONHASHSEED=s2))
         if l.returncode != 0:
-            res.violation('pickled formulas cannot be loaded: ' + l.stderr[-300:], {'history': 'pickle.loads in another interpreter'})
+            common.helper_crash(res, 'pickled formulas cannot be loaded', l.stderr, {'history': 'pickle.loads in another interpreter'})
             return 0
         bad = json.loads(l.stdout.strip().splitlines()[-1])
         n += 4 * len(PICKLE_TREES)
